@@ -1108,6 +1108,64 @@ func (m *MergeStatement) SQL() string {
 	return sb.String()
 }
 
+// MySQL utility statements
+
+func (s *ShowStatement) SQL() string {
+	if s == nil {
+		return ""
+	}
+	sb := getBuilder()
+	defer putBuilder(sb)
+	sb.WriteString("SHOW")
+	if s.ShowType != "" {
+		sb.WriteString(" ")
+		sb.WriteString(s.ShowType)
+	}
+	if s.ObjectName != "" {
+		if !strings.HasPrefix(s.ShowType, "CREATE") {
+			sb.WriteString(" FROM")
+		}
+		sb.WriteString(" ")
+		sb.WriteString(nameSQL(s.ObjectName))
+	}
+	if s.From != "" {
+		sb.WriteString(" FROM ")
+		sb.WriteString(nameSQL(s.From))
+	}
+	return sb.String()
+}
+
+func (d *DescribeStatement) SQL() string {
+	if d == nil {
+		return ""
+	}
+	return "DESCRIBE " + nameSQL(d.TableName)
+}
+
+func (r *ReplaceStatement) SQL() string {
+	if r == nil {
+		return ""
+	}
+	sb := getBuilder()
+	defer putBuilder(sb)
+	sb.WriteString("REPLACE INTO ")
+	sb.WriteString(nameSQL(r.TableName))
+	if len(r.Columns) > 0 {
+		sb.WriteString(" (")
+		sb.WriteString(exprListSQL(r.Columns))
+		sb.WriteString(")")
+	}
+	if len(r.Values) > 0 {
+		sb.WriteString(" VALUES ")
+		rows := make([]string, len(r.Values))
+		for idx, row := range r.Values {
+			rows[idx] = "(" + exprListSQL(row) + ")"
+		}
+		sb.WriteString(strings.Join(rows, ", "))
+	}
+	return sb.String()
+}
+
 // DML types from dml.go
 
 func (s *Select) SQL() string {
